@@ -5,8 +5,9 @@ import "github.com/dave/jennifer/jen"
 type ErrorPath []ErrorElement
 
 func (e ErrorPath) WrapErrors(errStmt *jen.Statement) *jen.Statement {
-	if len(e) != 0 {
-		switch elm := e[len(e)-1].(type) {
+	// the innermost field or index; map keys are not part of the message
+	for i := len(e) - 1; i >= 0; i-- {
+		switch elm := e[i].(type) {
 		case errElmField:
 			return jen.Qual("fmt", "Errorf").Call(jen.Lit("error setting field "+string(elm)+": %w"), errStmt)
 		case errElmIndex:
